@@ -590,6 +590,23 @@ def r03f(model, ctx):
     if ok:
         conds = {(unparse(t), pol) for t, pol in dominating_conditions(pm, pm.get(adds[0]), fp)}
         ok = ("domain not in subfrag.domains", True) in conds or ("domain in subfrag.domains", False) in conds
+        if not ok:
+            # the same filter as the `if` clause of a comprehension / generator that feeds the adding loop
+            lp = pm.get(adds[0])
+            while lp is not None and not isinstance(lp, ast.For):
+                lp = pm.get(lp)
+            src = lp.iter if lp is not None else None
+            if isinstance(src, ast.Name):
+                defs = [st.value for st in ast.walk(fp) if isinstance(st, ast.Assign) and len(st.targets) == 1 and
+                        unparse(st.targets[0]) == src.id]
+                src = defs[0] if len(defs) == 1 else None
+            if isinstance(src, (ast.GeneratorExp, ast.ListComp)) and len(src.generators) == 1:
+                v = unparse(src.generators[0].target)
+                filt = {unparse(c) for c in src.generators[0].ifs}
+                # a generator is evaluated lazily (one test per element, against the subfragment as it is then); a list is built first
+                ok = f"{v} not in subfrag.domains" in filt and unparse(src.elt) == v and unparse(lp.target) == "domain"
+            elif src is not None and not conds:
+                need(False, "Fragment._propagate_domains_down: unrecognised source of the domains that are added")
     ctx.check(ok, R, "Fragment._propagate_domains_down", "a parent's domain is added only where the subfragment has none of that name",
               "a subfragment that defines a domain itself must keep it: the parent's domain of the same name may only be added "
               "under `domain not in subfrag.domains` (and never stored over an existing entry)", f"{IR}:{fp.lineno}")
